@@ -41,6 +41,19 @@ def d1_once(ctx):
     hb, sb = hit[0][0], scan[0][0]
     ctx.chk.ob("D1", "a tracker hit never falls through to the fallback scan", not cfg.can_reach(hb, sb),
                "tracker-hit block bb%d, scan block bb%d" % (hb, sb), key="D1:never-both")
+    # the fallback scan is entered only when the tracker has no usable record: get() is None, or no link has that id
+    gcall = calls_to(f, stable=TR + "::get")
+    pcall = calls_to(f, path_contains="Iterator>::position")
+    if len(gcall) == 1 and len(pcall) == 1:
+        gv = pa.fa._val_call(gcall[0][1], (gcall[0][0], len(f.blocks[gcall[0][0]]["stmts"])), 0)
+        pv = pa.fa._val_call(pcall[0][1], (pcall[0][0], len(f.blocks[pcall[0][0]]["stmts"])), 0)
+        miss = pa.bdd.OR(pa.is_atom(("is", gv, "None")), pa.is_atom(("is", pv, "None")))
+        pcs = pa.pc_block(sb)
+        ok = pa.entails(pcs, miss)
+        ctx.chk.ob("D1", "while the tracker names a present link, no other link can be charged (the scan needs a tracker miss)", ok,
+                   "" if ok else "the holder scan is reachable with %s" % pa.counterexample(pcs, miss), key="D1:scan-only-on-tracker-miss")
+    else:
+        ctx.chk.missing("D1", "attribute_nak: tracker get / position calls", "%d / %d" % (len(gcall), len(pcall)))
     # the scan continues only after a charge that returned false
     head, body = cfg.innermost_loop_of(sb)
     call_atom = pa.atom(pa.fa._val_call(scan[0][1], (sb, len(f.blocks[sb]["stmts"])), 0))
